@@ -222,7 +222,7 @@ class Impl(object):
         us = sorted('%d:%s:%d:%d:%s:%s' % (i, wire.enc(u.name), u.ignore, u.secure, S(u.capabilities), S(u.hostmasks))
                     for i, u in self.U.users.items())
         default = self.ircdb.IrcChannel()
-        cs = sorted('%s:%d:%s' % (wire.enc(k), c.defaultAllow, S(c.capabilities)) for (k, c) in self.C.channels.data.items()
+        cs = sorted('%s:%d:%s' % (wire.enc(k), c.defaultAllow, S(c.capabilities)) for (k, (_orig, c)) in self.C.channels.data.items()
                     if not (c.defaultAllow == default.defaultAllow and set(c.capabilities) == set(default.capabilities)))
         cf = self.conf.supybot.capabilities
         return 'U=%s|C=%s|D=%s|R=%s|F=%d' % (';'.join(us), ';'.join(cs), S(cf()), S(cf.registeredUsers()), cf.default())
